@@ -137,13 +137,42 @@ class Stats:
 def _safe_check(clause: Clause, case) -> Outcome:
     """Run the clause's check; an exception escaping the check function itself is a harness
     error (checks catch the exceptions of the code under test where the contract allows them)."""
-    out = clause.check(case)
+    try:
+        out = clause.check(case)
+    except (KeyboardInterrupt, SystemExit, MemoryError):
+        raise
+    except Exception as e:  # noqa: BLE001
+        # An exception that escapes a check while the code under test is executing (the innermost frames, up to
+        # the first harness frame, pass through the repository) is the code under test failing at an observation
+        # point, not a harness bug: report it as a discrepancy of the case.
+        where = _raised_inside_repo(e)
+        if where is None:
+            raise
+        out = Outcome()
+        out.add(f'code-under-test-raises:{where}', f'{type(e).__name__}: {str(e)[:200]}')
+        return out
     if not isinstance(out, Outcome):
         raise HarnessError(f'{clause.name}: check returned {type(out)}')
     if not clause.memory_is_violation and any('MemoryError' in str(m)[:40] for _, m in out.discrepancies):
         # running out of address space inside a worker is a harness problem, never a verdict on the code
         raise HarnessError(f'{clause.name}: MemoryError while checking a case')
     return out
+
+
+def _raised_inside_repo(exc):
+    """name of the repository function in which (or below which) the exception was raised, if the part of the
+    traceback below the last harness frame runs through the repository; None otherwise"""
+    repo = os.path.realpath(env.REPO) + os.sep
+    verif = os.path.realpath(env.VERIF_DIR) + os.sep
+    frames = traceback.extract_tb(exc.__traceback__)
+    found = None
+    for fr in reversed(frames):
+        fn = os.path.realpath(fr.filename) if fr.filename and not fr.filename.startswith('<') else fr.filename
+        if fn.startswith(verif):
+            break
+        if fn.startswith(repo):
+            found = fr.name
+    return found
 
 
 def run_random_shard(clause: Clause, n_examples: int, seed_value: int, known_open: set,
